@@ -2,6 +2,7 @@ import Rbgp.Fsm.Codec
 import Rbgp.Fsm.TimedSpec
 import Rbgp.Fsm.WireCodec
 import Rbgp.Fsm.WireSpec
+import Rbgp.C08.Stats
 namespace Rbgp.C08
 open Rbgp Rbgp.Term Rbgp.Fsm Rbgp.Fsm.Codec Rbgp.Fsm.Timed
 
@@ -123,6 +124,26 @@ def handler (mode : String) (line : String) : String :=
               | none => "fail step=0 clause=unparsable-observation"
           | none => "(bad-case)"
       | _ => "(bad-line)"
+  | "stats" =>
+      -- evidence only: boundary buckets hit by this case (see Rbgp/C08/Stats.lean)
+      match parseMany line with
+      | some [c, o] =>
+          match WireCodec.wireCaseOf? c with
+          | some (cfg, h) =>
+              match WireCodec.wireObsOf? true o with
+              | some tr => " ".intercalate ((s!"w:lh:{Stats.hb cfg.localHold}" :: Stats.wireBuckets cfg {} h tr).eraseDups)
+              | none => ""
+          | none =>
+          match probeCaseOf? c with
+          | some outs => " ".intercalate (Stats.probeBuckets outs).eraseDups
+          | none =>
+          match caseOf? c with
+          | some (cfg, h) =>
+              match traceOf? h o with
+              | some tr => " ".intercalate ((s!"lh:{Stats.hb cfg.localHold}" :: Stats.timedBuckets cfg {} tr).eraseDups)
+              | none => ""
+          | none => ""
+      | _ => ""
   | _ => "(bad-mode)"
 
 end Rbgp.C08
